@@ -285,6 +285,34 @@ def generate(ctx):
         cases.append(_shape_extremes(rng, ctx.n(9, 20)))
     for _ in range(ctx.n(200, 2000)):
         cases.append(_near_bound(rng))
+    # isolated bins (distance max(C) to every non-empty bin of the other histogram: served through the threshold node
+    # only, pre_flow_cost) together with an explicit penalty below max(C), including 0 - all flow types, gd_metric on/off
+    iso = [{"p": [2, 0], "q": [0, 2], "c": [[0, 4], [4, 0]], "pen": 1, "metric": True, "kind": "isolated", "tiny": True},
+           {"p": [2, 0], "q": [0, 2], "c": [[0, 4], [4, 0]], "pen": 0, "metric": True, "kind": "isolated", "tiny": True}]
+    for _ in range(ctx.n(150, 1500)):
+        n = int(rng.randint(2, ctx.n(6, 9))); m = n if rng.rand() < 0.6 else int(rng.randint(2, ctx.n(6, 9)))
+        k = max(n, m)
+        mx = int(rng.randint(2, 9))
+        met = rng.rand() < 0.5
+        if met:   # thresholded line metric: far bins sit at the threshold = max
+            D = np.minimum(np.abs(np.subtract.outer(np.arange(k), np.arange(k))), mx)
+        else:
+            D = rng.randint(0, mx + 1, (k, k)); D.flat[int(rng.randint(k * k))] = mx
+        C = D[:n, :m].copy()
+        P = rng.randint(0, 6, n); Q = rng.randint(0, 6, m)
+        if met:   # mass only at the two ends: every non-empty pair is at distance >= threshold when k > mx
+            P[:] = 0; Q[:] = 0; P[0] = int(rng.randint(1, 6)); Q[m - 1] = int(rng.randint(1, 6))
+            if rng.rand() < 0.5 and m > 2:
+                Q[0] = int(rng.randint(0, 3))
+        else:     # make one source row (and sometimes a sink column) all-max against the non-empty bins
+            i = int(rng.randint(n)); C[i, :] = int(C.max()); P[i] = int(rng.randint(1, 6))
+            if rng.rand() < 0.5:
+                j = int(rng.randint(m)); C[:, j] = int(C.max()); Q[j] = int(rng.randint(1, 6))
+        mc = int(C.max())
+        pen = int(rng.choice([0, 0, 1, max(0, mc - 1), max(0, mc // 2)]))
+        metric = bool(met and _metric_ok(D))
+        iso.append({"p": [int(x) for x in P], "q": [int(x) for x in Q], "c": C.astype(int).tolist(), "pen": pen,
+                    "metric": metric, "kind": "isolated", "tiny": bool(n <= 3 and m <= 3 and max(list(P) + list(Q) + [0]) <= 4)})
     # length-1 histograms and 1x1 / 1xN / Nx1 cost matrices handed over as strided views in every dtype (the class in
     # which np1D_to_vector used to read out of bounds: finding F16, repaired in /repo)
     one = []
@@ -309,6 +337,7 @@ def generate(ctx):
         if rng.rand() < 0.7:
             _encode(rng, c)
     cases.extend(one)
+    cases.extend(iso)
     for c in cases:
         ctx.count("kind:" + c.get("kind", "?"))
         ctx.count("shape:%s" % ("equal" if len(c["p"]) == len(c["q"]) else "unequal"))
